@@ -81,9 +81,9 @@ add("C16", "exploration",
     "DESIGN.md 4/C16")
 
 add("C17", "exploration",
-    "property-based testing (proptest): normal-equation / exact-reproduction / permutation oracles for linear_fit; reference least-squares solution (harness Gauss-Newton) and model-call budget for Levenberg-Marquardt; bug-compatible reference model of the LM loop to key the recorded findings K1 (finite-difference Jacobian) and K3 (no step rejection)",
+    "property-based testing (proptest): normal-equation / exact-reproduction / permutation oracles for linear_fit; reference least-squares solution (harness Gauss-Newton) and model-call budget for Levenberg-Marquardt; bug-compatible reference model of the LM loop to key the recorded findings K1 (finite-difference Jacobian), K3 (no step rejection) and K5 (first-iteration exit at damping (1 - 1/mult) ~ 1)",
     "Generated data sets and models (linear in parameters and exponential/gaussian/logistic, noise-free and noisy; replicated abscissae; abscissae far from the origin; complex data for linear_fit and curve_fit_jac; damping from 1e-10 (linear models) / 1e-4 (non-linear) to 10) with well-conditioned designs; the fit must terminate within a model-call budget and lie within a tolerance-governed distance of the reference least-squares solution; invalid parameters and mismatched lengths must give Err. curve_fit's finite-difference Jacobian defect is a recorded finding: a failing curve_fit outcome is attributed to it only if it coincides with the harness's transliteration of the loop with Jacobian = sum.",
-    "Exploration only. On the pinned tree most curve_fit (finite-difference) cases fall under K1, so that variant's accuracy is effectively unverified until the defect is repaired; curve_fit_jac, linear_fit and all validation paths are fully judged; curve_fit_jac failures in which the transliterated loop accepted an uphill step and a safeguarded iteration succeeds are reported as K3.",
+    "Exploration only. On the pinned tree most curve_fit (finite-difference) cases fall under K1, so that variant's accuracy is effectively unverified until the defect is repaired; curve_fit_jac, linear_fit and all validation paths are fully judged; curve_fit_jac failures in which the transliterated loop accepted an uphill step and a safeguarded iteration succeeds are reported as K3; failures in which that loop exits after one main iteration with damping (1 - 1/mult) within 0.1 of 1 are reported as K5.",
     "DESIGN.md 4/C17")
 
 add("C01", "exploration",
